@@ -5,7 +5,7 @@ P=$(realpath "$1"); shift
 D=$(mktemp -d /tmp/pxscratch.XXXXXX)
 trap 'rm -rf "$D"' EXIT
 rsync -a --exclude target --exclude .git /repo/ "$D/"
-( cd "$D" && git init -q . 2>/dev/null && git apply --whitespace=nowarn "$P" ) || { echo "PATCH-DOES-NOT-APPLY"; exit 3; }
+( cd "$D" && git init -q . 2>/dev/null && ( git apply --whitespace=nowarn "$P" 2>/dev/null || patch -p1 -s -F3 --no-backup-if-mismatch < "$P" ) ) || { echo "PATCH-DOES-NOT-APPLY"; exit 3; }
 cd /verif
 OUT=$(./check ALL --repo "$D" --no-evidence 2>&1)
 echo "$OUT" | grep -E "^VIOLATION|cannot build facts|crashed" | sort -u
